@@ -64,7 +64,7 @@ theorem gamma_mk_fields (alpha beta : ℝ) :
     (Gamma.mk' alpha beta).d = (if alpha < 1 then alpha + 1 else alpha) - 1 / 3 := by
   unfold Gamma.mk'
   dist_simp
-  split_ifs <;> simp
+  exact ⟨trivial, trivial, trivial, trivial⟩
 
 theorem gamma_mk_d_pos (alpha beta : ℝ) (ha : 0 < alpha) : 0 < (Gamma.mk' alpha beta).d := by
   rw [(gamma_mk_fields alpha beta).2.2.2]
